@@ -236,7 +236,7 @@ class Check(PropertyCheck):
             'per coordinate: len, iteration, xy, copy; index expressions = tuples of ints (negative, out of range), '
             'slices (start/stop/step, negative and zero step), integer arrays (N-D, negative, out of range), boolean arrays '
             '(1-D..full rank, wrong shape), Ellipsis (none, one, two), too many indices; + and - with PixCoord and '
-            'non-PixCoord operands, (a+b)-b, separation both ways, ==; rotations about scalar and array centres by angles of '
+            'non-PixCoord operands, (a+b)-b, (a-b)+b, separation both ways; rotations about scalar and array centres by angles of '
             'any sign/magnitude in deg/rad/arcmin/arcsec/hourangle (Angle and Quantity) and by exact Pythagorean unit vectors, '
             'twice / by the sum / back; real astropy WCS (TAN/SIN/CAR/ZEA/STG, RA-DEC and GLON-GLAT, rotated PC, both parities, '
             'scales 1e-5..0.1 deg) x origin {0,1} x mode {all,wcs}. Non-trivial = the constructor succeeded on a non-empty coordinate.')
@@ -261,7 +261,7 @@ class Check(PropertyCheck):
         'an index expression never reads outside the source array: proved for broadcasting (bcast_in_range) and for the '
         'result SIZE of every index expression (plan_size); for the positions of general index expressions validated only '
         '(exact element values against real numpy on every generated key)',
-        '__eq__ (allclose on the stacked arrays) is modelled and compared with the real result but is not a clause of C20',
+        '__eq__ is not a clause of C20 (equality belongs to C16): it is neither modelled nor compared here',
     ]
 
     # ================================================================ generation
@@ -611,8 +611,6 @@ class Check(PropertyCheck):
             out['sub'] = cp(lambda: p - o)
             out['addsub'] = cp(lambda: (p + o) - o)
             out['subadd'] = cp(lambda: (p - o) + o)
-            e = attempt(lambda: p == o)
-            out['eq'] = e if is_err(e) else bool(e)
             if case['o'] is not None:
                 def sep(a, b):
                     r = attempt(lambda: a.separation(b))
@@ -711,7 +709,7 @@ class Check(PropertyCheck):
         if k == 'arith':
             p = self._jc(case['p'])
             o = None if case['o'] is None else self._jc(case['o'])
-            ops = ['pc.add', 'pc.sub', 'pc.addsub', 'pc.subadd', 'pc.eq']
+            ops = ['pc.add', 'pc.sub', 'pc.addsub', 'pc.subadd']
             reqs = [{'op': op, 'p': p, 'o': o} for op in ops]
             if o is not None:
                 reqs.append({'op': 'pc.sep2', 'p': p, 'q': o})
@@ -768,12 +766,10 @@ class Check(PropertyCheck):
             if replies[0].get('at') == 'ctor':
                 return {'ctor': {'err': replies[0]['err']}}
             out = {n: dec_reply(r) for n, r in zip(('add', 'sub', 'addsub', 'subadd'), replies)}
-            e = replies[4]
-            out['eq'] = {'err': e['err']} if 'err' in e else e['ok']
             if case['o'] is not None:
                 f = lambda j: [[int(n) for n in j['shape']], j['data']]
-                out['sep2'] = dec_reply(replies[5], f)
-                out['sep2_rev'] = dec_reply(replies[6], f)
+                out['sep2'] = dec_reply(replies[4], f)
+                out['sep2_rev'] = dec_reply(replies[5], f)
             return out
         if k == 'rotate':
             if replies[0].get('at') == 'ctor':
@@ -844,12 +840,6 @@ class Check(PropertyCheck):
             for n in ('add', 'sub', 'addsub', 'subadd'):
                 if not same_pc(real[n], model[n]):
                     return False
-            if is_err(real['eq']) or is_err(model['eq']):
-                if not (is_err(real['eq']) and is_err(model['eq']) and real['eq']['err'] == model['eq']['err']):
-                    return False
-            elif real['eq'] != model['eq']:
-                # inputs are dyadic with |a - b| either 0 or >= 1/8: far from allclose's boundary
-                return False
             if case['o'] is not None:
                 return self._sep_close(real['sep'], model['sep2']) and self._sep_close(real['sep_rev'], model['sep2_rev'])
             return True
